@@ -523,6 +523,12 @@ func main() {
 		{"bodyDestroySession", srvF, "LockServer", "DestroySession"},
 		{"bodyTimerReset", parse("timermap/timermap.go"), "TimerMap", "Reset"},
 		{"bodyStoreWrite", parse("server/session/store/store.go"), "store", "Write"},
+		{"bodyValidateSession", restF, "restHandler", "ValidateSession"},
+		{"bodyRestDestroySession", restF, "restHandler", "DestroySession"},
+		{"bodyRestCreateSession", restF, "restHandler", "CreateSession"},
+		{"bodyRestOnTimeout", restF, "restHandler", "onTimeoutFunc"},
+		{"bodyTimerAdd", parse("timermap/timermap.go"), "TimerMap", "Add"},
+		{"bodyTimerRemove", parse("timermap/timermap.go"), "TimerMap", "Remove"},
 	} {
 		def(b.def, "String", func(add adder) {
 			fn := findFn(b.f, b.rtyp, b.name)
